@@ -642,10 +642,17 @@ func (m *bsMachine) ruleGet(t *rapid.T) {
 	if c == nil {
 		t.Skip("no consumer")
 	}
-	kind := rapid.SampledFrom([]string{"nil", "bg", "cancellable", "cancellable", "cancelled"}).Draw(t, "getCtx")
+	kind := rapid.SampledFrom([]string{"nil", "bg", "cancellable", "cancellable", "cancelled", "selfcancel"}).Draw(t, "getCtx")
 	var ctx context.Context
 	var cancel context.CancelFunc
 	switch kind {
+	case "selfcancel":
+		// cancelled the moment after Get's entry check found it live: a value that is there is returned, a Get that
+		// would have to wait returns the context's error at once
+		inner, cn := context.WithCancel(context.Background())
+		w := &csSelfCancelCtx{Context: inner, cancel: cn}
+		w.armed.Store(true)
+		ctx, cancel = w, cn
 	case "bg":
 		ctx = context.Background()
 	case "cancellable":
@@ -662,6 +669,11 @@ func (m *bsMachine) ruleGet(t *rapid.T) {
 	})
 	c.getCancel = cancel
 	c.getCtxErr = kind == "cancelled"
+	if kind == "selfcancel" {
+		if avail, _, _ := m.getOutcome(c, false); !avail {
+			c.getCtxErr = true
+		}
+	}
 	if done, _, _ := m.getOutcome(c, c.getCtxErr); !done {
 		m.tr("get(c%d,%s)...", c.id, kind)
 	}
